@@ -527,8 +527,13 @@ func genQuery(t *rapid.T, kind string, pos []V3, idx []int) Query {
 	switch rapid.IntRange(0, 5).Draw(t, "rk") {
 	case 0:
 		q.R = 0
-	case 1: // exactly the distance to a vertex: on the decision boundary
-		q.R = norm(sub(q.P, vert("rv")))
+	case 1: // exactly the distance to a vertex, or to the box of an element: on the decision boundary
+		if rapid.Bool().Draw(t, "rbox") {
+			mn, mx := bbox(gather(pos, primVerts(kind, idx, rapid.IntRange(0, primCount(kind, idx)-1).Draw(t, "rel"))))
+			q.R = boxDist(mn, mx, q.P)
+		} else {
+			q.R = norm(sub(q.P, vert("rv")))
+		}
 	case 2:
 		q.R = f64(t, 0, diam, "r")
 	case 3:
@@ -917,6 +922,21 @@ func outside(p, lo, hi V3) bool {
 	return false
 }
 
+// dyadic: every coordinate is a multiple of 1/128 of magnitude at most 1024. Box centres, extents,
+// cell subdivisions, coordinate differences and their squares are then all exact in float64, so the
+// library's distance to a box and the harness's are the same floating-point number and the
+// within-range decision can be judged ON the boundary, without a don't-care band.
+func dyadic(ps ...V3) bool {
+	for _, p := range ps {
+		for _, x := range p {
+			if math.Abs(x) > 1024 || x*128 != math.Floor(x*128) {
+				return false
+			}
+		}
+	}
+	return true
+}
+
 func pointQueries(tree *trees.OctTree, els []scanned, q Query, scale float64, ulo, uhi V3, pos []V3, w string, o *vh.Obs) *vh.Failure {
 	n := len(els)
 	p := vv(q.P)
@@ -1041,8 +1061,26 @@ func pointQueries(tree *trees.OctTree, els []scanned, q Query, scale float64, ul
 		return f
 	}
 	nin = 0
+	exact := dyadic(q.P) && dyadic(pos...)
+	if exact {
+		o.Class("withinrange/exact-arithmetic-no-band")
+	}
 	for i, s := range els {
 		d := boxDist(s.mn, s.mx, q.P)
+		if exact { // the documented predicate is "distance <= radius"
+			if d == q.R {
+				o.Class("withinrange/element-exactly-on-the-radius")
+			}
+			if d <= q.R {
+				nin++
+				if !within[i] {
+					return vh.Failf("withinrange/missing", "%s: ElementsWithinRange(%v, %.17g) = %v lacks element %d whose box [%v,%v] is at distance %.17g (all coordinates are multiples of 1/128: the distance is exact)", w, q.P, q.R, keys(within), i, s.mn, s.mx, d)
+				}
+			} else if within[i] {
+				return vh.Failf("withinrange/extra", "%s: ElementsWithinRange(%v, %.17g) = %v lists element %d whose box [%v,%v] is at distance %.17g (exact)", w, q.P, q.R, keys(within), i, s.mn, s.mx, d)
+			}
+			continue
+		}
 		switch {
 		case d < q.R-band:
 			nin++
